@@ -4,7 +4,8 @@
 EXTENDS Integers, Sequences, FiniteSets, TLC, Json, IOUtils
 CONSTANTS Coins, ExtContracts, BadContracts, ReindexAll, CheckNewAddr
 Trace == ndJsonDeserialize(IOEnv.TRACE_FILE)
-VARIABLES l, enabled, pairs, byErc20, byDenom, meta, cbal, escrow, csup, tbal, tesc, tsup, code, deployed, moved, last
+VARIABLES l, enabled, pairs, byErc20, byDenom, meta, cbal, escrow, csup, tbal, tesc, tsup, code, deployed, moved, last,
+          govOn   \* ground truth kept by the trace: what governance last set the EnableAggregate parameter to (not what the module reads back)
 ModContracts == <<"m1", "m2">>
 Amts == {}
 Start == 5
@@ -14,7 +15,7 @@ SetOf(s) == {s[i] : i \in DOMAIN s}
 ln(k) == Trace[k]
 FnOf(list) == LET S == SetOf(list) IN [k \in {x[1] : x \in S} |-> (CHOOSE x \in S : x[1] = k)[2]]
 B_pairs(k) == { [erc20 |-> p.erc20, denoms |-> p.denoms, enabled |-> p.enabled, owner |-> p.owner] : p \in SetOf(ln(k).st.pairs) }
-TInit == /\ l = 0 /\ enabled = TRUE /\ pairs = {} /\ byErc20 = <<>> /\ byDenom = <<>> /\ meta = {}
+TInit == /\ l = 0 /\ govOn = TRUE /\ enabled = TRUE /\ pairs = {} /\ byErc20 = <<>> /\ byDenom = <<>> /\ meta = {}
          /\ cbal = <<>> /\ escrow = <<>> /\ csup = <<>> /\ tbal = <<>> /\ tesc = <<>> /\ tsup = <<>> /\ code = <<>>
          /\ deployed = 0 /\ moved = {} /\ last = [act |-> "None", res |-> "ok"]
 Report(k, name, holds) == holds \/ PrintT(<<"VIOL", k, name>>)
@@ -39,6 +40,9 @@ Judge(k) ==
      /\ Report(k, "C11.EnabledOnlyByToggle", \A d \in Denoms :
                    (d \in DOMAIN byDenom /\ d \in DOMAIN byDenom' /\ HasPair(byDenom[d]) /\ HasPair(byDenom[d])')
                      => (PairOf(byDenom[d]).enabled = PairOf(byDenom[d])'.enabled \/ ln(k).ev = "Toggle"))
+     (* conversions are refused while governance has the module disabled - judged on what governance set, by key *)
+     /\ Report(k, "C11.GateGoverned", (ln(k).ev \in {"ConvertCoin", "ConvertERC20"} /\ ln(k).res = "ok") => govOn)
+     /\ Report(k, "C11.ParamReadsBack", enabled' = govOn')
      /\ Report(k, "C11.Gate", (ln(k).ev \in {"ConvertCoin", "ConvertERC20"} /\ ln(k).res = "ok") =>
                    LET t == IF ln(k).ev = "ConvertCoin" THEN A(k).d ELSE A(k).c IN
                    /\ enabled /\ A(k).recv # "blocked"
@@ -61,6 +65,7 @@ C_Step(k) ==
     [] ln(k).ev = "Toggle"        -> ToggleEff(a.t) /\ ok = ToggleOK(a.t)
     [] ln(k).ev = "UpdateERC20"   -> UpdateEff(a.old, a.new) /\ ok = UpdateOK(a.old, a.new)
     [] ln(k).ev = "Param"         -> ParamEff(a.on)
+    [] ln(k).ev = "ParamHook"     -> ParamHookEff(a.on)
     [] ln(k).ev = "Destroy"       -> DestroyEff(a.c)
     [] ln(k).ev = "ConvertCoin"   -> ConvertCoinEff(a.d, a.amt, a.recv) /\ ok = ConvertCoinOK(a.d, a.amt, a.recv)
     [] ln(k).ev = "ConvertERC20"  -> ConvertERC20Eff(a.c, a.d, a.amt, a.recv) /\ ok = ConvertERC20OK(a.c, a.d, a.amt, a.recv)
@@ -78,6 +83,7 @@ TNext ==
               ELSE IF ln(k).ev = "UpdateERC20" /\ ln(k).res = "ok" /\ ln(k).args.old \in DOMAIN byErc20 /\ HasPair(byErc20[ln(k).args.old])
                    THEN moved \cup {PairOf(byErc20[ln(k).args.old]).denoms[1]} ELSE moved
   /\ last' = [act |-> ln(k).ev, res |-> ln(k).res]
+  /\ govOn' = IF ln(k).ev = "Reset" THEN TRUE ELSE IF ln(k).ev = "Param" /\ ln(k).res = "ok" THEN ln(k).args.on ELSE govOn
   /\ Judge(k) /\ Conform(k)
-TSpec == TInit /\ [][TNext]_<<l, vars>>
+TSpec == TInit /\ [][TNext]_<<l, vars, govOn>>
 =============================================================================
